@@ -398,6 +398,11 @@ bool Instance::configure_tx_txin() {
                 fprintf(stderr, "sig script did not contain a push op as expected\n");
                 return false;
             }
+            if (scriptSig != (CScript() << pushval)) {
+                // BIP141: the scriptSig must be exactly a push of the redeem script (one push, minimally encoded, nothing else)
+                fprintf(stderr, "the sig script of a P2SH-wrapped witness program must be exactly the push of the redeem script\n");
+                return false;
+            }
             validation = CScript(pushval.begin(), pushval.end());
             hashsrc = Value(pushval);
             CScript::const_iterator it = scriptPubKey.begin();
